@@ -378,7 +378,7 @@ def ev_longname(c) -> R:
     return r
 
 
-SIBLING_STATES = {"directory": {"dir": True}, "dangling-symlink": {"symlink": "does-not-exist"}, "symlink-loop": None, "symlink-to-directory": {"symlink": "src"},
+SIBLING_STATES = {"fifo": {"fifo": True}, "directory": {"dir": True}, "dangling-symlink": {"symlink": "does-not-exist"}, "symlink-loop": None, "symlink-to-directory": {"symlink": "src"},
                   "invalid-utf8": {"hex": "fffe5350"}, "read-only-empty": {"empty": True, "mode": 0o444}, "symlink-to-file": {"symlink": "src/a.py"}}
 
 
@@ -403,6 +403,11 @@ def ev_sibling(c) -> R:
         else:
             out = run_command(cmd, root)
         judge(r, out, cmd, f"{name}.license is a {c['state']} ({c['target']})", f"sibling|{c['state']}|{cmd}")
+        if cmd == "lint-json" and out.exc is None and out.stdout.startswith("{") and c["state"] in ("fifo", "directory", "dangling-symlink", "symlink-loop"):
+            # something that is no file is no sidecar: the file itself is read, and it can be read
+            data = json.loads(out.stdout)
+            if any(e.endswith("/" + name) or e == name for e in data["non_compliant"]["read_errors"]):
+                r.violation(f"sibling|{c['state']}|readable-file-is-a-read-error", f"{name}.license is a {c['state']}: lint lists the readable file {name} under read errors")
     r.evals = 4
     r.outcome = "sibling"
     r.tags.append("sibling")
@@ -596,7 +601,7 @@ def run(tier, seed):
     return finish(
         ID, "fault_enumeration", MODULE, tier, seed, st, t0,
         rule=("every REUSE.toml key x every TOML value shape (root and nested file; pairs of keys: one key row per seed in quick, all in thorough), "
-              "15 structurally broken TOML files, 18 broken or odd dep5 files + conflicts, 16 .gitmodules and 9 .gitignore shapes inside a Git repository, 9 unloadable / unrenderable templates x 3 targets, every licence-expression token sequence up to the bound x {header, .license, REUSE.toml} x 4 commands, 7 odd states of FILE.license x 3 ways annotate gets to it, 11 hostile byte classes x {header, .license}, 5 LICENSES/ oddities, and an "
+              "15 structurally broken TOML files, 18 broken or odd dep5 files + conflicts, 16 .gitmodules and 9 .gitignore shapes inside a Git repository, 9 unloadable / unrenderable templates x 3 targets, every licence-expression token sequence up to the bound x {header, .license, REUSE.toml} x 4 commands, 8 odd states of FILE.license x 3 ways annotate gets to it, 11 hostile byte classes x {header, .license}, 5 LICENSES/ oddities, and an "
               "I/O fault (4 errnos) injected at the k-th open of a project file for every k (and every pair in thorough), each under 8 subcommands (4 for "
               "I/O faults); oracle: exit status in {0,1,2}, no escaping exception, configuration errors exit 2 naming the file, other files still reported; "
               "non-trivial = the malformed value / fault was actually reached"),
